@@ -48,3 +48,4 @@
 ; host callbacks (C13)
 ;; ghost lastRoundHeight Int
 ;; ghost lastCommitHeight Int
+;; ghost recvd (Array Int Bool)
